@@ -298,7 +298,14 @@ def dispatch_shape(pf):
         raise Shape("dispatch_with_conversions: ambiguity rule changed")
     conv = ("if (ti.is_arithmetic() && param.get_type_info().is_arithmetic() && param.get_type_info() != ti) { return Boxed_Number(param).get_as(ti).bv; } "
             "else { return param; }")
-    if conv not in w:
+    conv2 = ("if (ti.is_arithmetic() && param.get_type_info().is_arithmetic() && param.get_type_info() != ti) { converted = true; return Boxed_Number(param).get_as(ti).bv; } "
+             "else { return param; }")
+    skip = "if (!converted) { throw exception::dispatch_error(plist, std::vector<Const_Proxy_Function>(t_funcs.begin(), t_funcs.end())); }"
+    if conv in w and "converted" not in w:
+        only_converted = False
+    elif conv2 in w and skip in w and w.index(skip) > w.index(conv2) and "bool converted = false;" in w and w.count("converted") == 4:
+        only_converted = True       # the fallback calls the chosen function only when it converted at least one argument
+    else:
         raise Shape("dispatch_with_conversions: arithmetic conversion of the parameter list changed")
     tm = norm(function_body(pf, r"bool types_match_except_for_arithmetic\(const FuncType &t_func,"))
     if ("return Proxy_Function_Base::compare_type_to_param(ti, bv, t_conversions) || (bv.get_type_info().is_arithmetic() && ti.is_arithmetic());" not in tm
@@ -315,7 +322,7 @@ def dispatch_shape(pf):
         attr_nullcheck = False
     else:
         raise Shape("Attribute_Access::do_call changed")
-    return arity_check, ctp, retry, retry2, attr_nullcheck
+    return arity_check, ctp, retry, retry2, attr_nullcheck, only_converted
 
 
 def call_func_shape(pd):
@@ -432,7 +439,7 @@ def translate(repo):
     conds, c1, c2, c3 = boxed_cast_flow(rd("dispatchkit/boxed_cast.hpp"))
     null_when_const = data_ptr_shape(rd("dispatchkit/boxed_value.hpp"))
     any_shape(rd("dispatchkit/any.hpp"))
-    arity_check, ctp, retry, retry2, attr_nullcheck = dispatch_shape(rd("dispatchkit/proxy_functions.hpp"))
+    arity_check, ctp, retry, retry2, attr_nullcheck, only_converted = dispatch_shape(rd("dispatchkit/proxy_functions.hpp"))
     call_func_shape(rd("dispatchkit/proxy_functions_detail.hpp"))
     registration_shape(rd("dispatchkit/dispatchkit.hpp"))
     special_helpers(rd("dispatchkit/boxed_number.hpp"), rd("dispatchkit/function_call.hpp"))
@@ -454,9 +461,11 @@ def translate(repo):
           "(* exception classes after which dispatch() tries the next overload / dispatch_with_conversions() reports dispatch_error *)",
           "Definition dispatch_retry : list retry_class := [%s]." % "; ".join(retry),
           "Definition dwc_retry : list retry_class := [%s]." % "; ".join(retry2),
-          "(* Attribute_Access::do_call null-checks the object pointer *)", "Definition attr_nullcheck : bool := %s." % coqbool(attr_nullcheck), "",
+          "(* Attribute_Access::do_call null-checks the object pointer *)", "Definition attr_nullcheck : bool := %s." % coqbool(attr_nullcheck),
+          "(* dispatch_with_conversions() calls the chosen overload only when it converted at least one argument *)",
+          "Definition dwc_only_converted : bool := %s." % coqbool(only_converted), "",
           "Definition gen_rules : rules := mkrules verify_table cast_table data_ptr_null_when_const bc_direct_when bc_direct_catch bc_up_catch bc_down_catch",
-          "  arity_check_present ctp_disjuncts dispatch_retry dwc_retry attr_nullcheck.", ""]
+          "  arity_check_present ctp_disjuncts dispatch_retry dwc_retry attr_nullcheck dwc_only_converted.", ""]
     return "\n".join(L)
 
 
